@@ -1,5 +1,6 @@
 SPECIFICATION Spec
 CONSTANTS HourDoesNotZeroMinutes <- On
+          DayMoveKeepsHour <- Off
           Week53Everywhere <- Off
           AllowKnownClass <- Off
           Shapes = 0
